@@ -1,7 +1,8 @@
 """BOUNDED stand-in for C19: narrow-phase queries always terminate with finite results on valid input.
 
 Runs the REAL library (JIT as installed) on an explicitly enumerated finite set of collider pairs and checks, per entry point,
-    terminates            the call returns before the per-call watchdog (CALL_TIMEOUT s; a normal call takes < 50 ms)
+    terminates            the call returns before the per-call watchdog: CALL_TIMEOUT = 20 s of CPU time spent by the child inside this
+                          one call (a normal call takes < 50 ms; CPU time, not wall time, so a loaded machine cannot cause a failure)
     support_calls<=1000   at most 1000 support evaluations of the Minkowski difference A-B (= calls of each collider's
                           support_function; counted by a counting wrapper installed on the collider *instances*, so that
                           type(collider) is unchanged - the Nesterov code dispatches on the exact type; for the Nesterov
@@ -18,13 +19,16 @@ epa.epa (on the simplex of gjk_distance_jolt when that reports distance 0), self
 
 No geometric oracle is needed: all clauses are observed directly.  Closed forms of _common are only used to PLACE colliders
 (touching / prescribed gap / prescribed penetration).  Each native call runs in a forked grandchild of a pmap worker with a
-per-call watchdog: a hang is attributed to exactly one (scene, entry point) and reported as `terminates`.
+per-call watchdog: a hang is attributed to exactly one (scene, entry point) and reported as `terminates`; the parent process
+never executes library code.  When the time budget of the tier is used up the remaining scenes are reported as `skipped`.
+The simplex that gjk_distance hands to EPA is produced with np.empty poisoned by NaN (only for that call), so that rows the GJK
+never wrote are deterministic: EPA reading them shows up as finite_output instead of depending on arbitrary memory.
+MeshGraph's support function is stateful (vertex cache): results for mesh scenes depend on the order of the entry points above.
 
 Replay of a failure input:  python bounded/c19.py --replay '<json of failure["input"]>'
 """
 import itertools
 import json
-import math
 import os
 import pickle
 import select
@@ -369,10 +373,14 @@ def entry_points():
         bvh.add_collider("a", a)
         bvh.add_collider("b", b)
         bvh.self_collision_whitelists_ = {"a": ("a",), "b": ("b",)}
-        with Instrument(a, b) as cnt:
+        with Instrument(a, b) as cnt:                      # detect() tests the pair once per frame that is not yet in contact
             st["cnt"] = cnt
             contacts = self_collision.detect(bvh)
+        n1 = cnt.evaluations(False)
+        with Instrument(a, b) as cnt2:
+            st["cnt"] = cnt2
             anyc = self_collision.detect_any(bvh)
+        st["evals"] = max((n1 + 1) // 2, cnt2.evaluations(False))   # per narrow-phase query (detect: at most two queries)
         return [("contacts", [float(bool(v)) for v in contacts.values()]), ("any", float(bool(anyc)))]
 
     return [
@@ -505,7 +513,7 @@ def _cpu_seconds(pid):
         return None
 
 
-def run_batch_guarded(scenes, evaluator, call_timeout=CALL_TIMEOUT, deadline=None, wall_timeout=None):
+def run_batch_guarded(scenes, evaluator, call_timeout=CALL_TIMEOUT, deadline=None, wall_timeout=None, max_timeouts=MAX_TIMEOUTS_PER_BATCH):
     """runs evaluator over the scenes in a forked child with a per-call watchdog.  The watchdog measures the CPU time the child
     spends inside ONE call (robust against a loaded machine: a busy hang burns CPU, a slow machine does not), plus a wall-clock
     limit of WALL_FACTOR * call_timeout for a call that blocks without using CPU.
@@ -516,7 +524,7 @@ def run_batch_guarded(scenes, evaluator, call_timeout=CALL_TIMEOUT, deadline=Non
     timeouts = 0
     wall_timeout = WALL_FACTOR * call_timeout if wall_timeout is None else wall_timeout
     while start < len(scenes):
-        if timeouts >= MAX_TIMEOUTS_PER_BATCH or (deadline is not None and time.time() > deadline):
+        if timeouts >= max_timeouts or (deadline is not None and time.time() > deadline):
             return results, incidents, list(range(start, len(scenes)))
         rfd, wfd = os.pipe()
         pid = os.fork()
@@ -625,13 +633,17 @@ def guarded_map(scenes, evaluator_name, jobs, call_timeout, budget, batch_size):
     return batches, out
 
 
-def warm_up(evaluator_name, scenes, timeout=300.0):
-    """compiles the jitted code / fills numba's on-disk cache in a guarded child (a hang there is reported as `terminates`)"""
+def warm_up(evaluator_name, scenes, timeout=120.0):
+    """compiles the jitted code / fills numba's on-disk cache in a guarded child.  A call that does not return within `timeout` s
+    of CPU time is reported as `terminates` and ends the warm-up; pool workers later pre-load only the scenes that came back"""
     global _WARM_SCENES
     t = time.time()
-    res, inc, skipped = run_batch_guarded(scenes, globals()[evaluator_name], call_timeout=timeout, wall_timeout=3 * timeout)
-    ok = not any(k in ("terminates", "harness") for _, _, k, _ in inc) and not skipped
-    _WARM_SCENES = scenes if ok else None
+    res, inc, skipped = run_batch_guarded(scenes, globals()[evaluator_name], call_timeout=timeout, wall_timeout=3 * timeout, max_timeouts=1)
+    bad = set(skipped) | {i for i, _, k, _ in inc if k in ("terminates", "harness", "no_exception")}
+    first_bad = min(bad) if bad else len(scenes)
+    clean = [sc for i, sc in enumerate(scenes) if i < first_bad]
+    ok = not bad
+    _WARM_SCENES = clean or None
     return ok, res, inc, time.time() - t
 
 
@@ -735,7 +747,7 @@ def gen_aspect(rng, reps, aspects):
                 if d is not None:
                     variants.append((k, mode, a, s, d))
     for (kA, mA, aA, sA, dA) in variants:
-        partners = [variants[i] for i in rng.choice(len(variants), size=reps, replace=False)]
+        partners = [variants[i] for i in rng.choice(len(variants), size=reps, replace=reps > len(variants))]
         partners.append((kA, mA, aA, sA, dA))
         for (kB, mB, aB, sB, dB) in partners:
             lattice = rng.random() < 0.6
@@ -810,6 +822,9 @@ def collect(batches, out, failures, stats, contract_of):
                     failures.append(dict(contract=contract_of(nm, sc), obligation=ob, detail=detail, input=spec_json(sc)))
             if per:
                 stats["scenes_run"].add(scene_key(sc))
+                if len(stats["samples"]) < 6 and sc["family"] != "warmup":
+                    stats["samples"].append(dict(spec_json(sc), support_evaluations={k: v.get("evals") for k, v in per.items() if not v.get("na")},
+                                                 violated=[f"{k}:{ob}" for k, v in per.items() for ob, _ in v.get("fail", [])]))
 
 
 def contract_name(nm, sc):
@@ -834,7 +849,7 @@ def main():
     t0 = time.time()
     rng = np.random.default_rng(a.seed)
     thorough = a.tier == "thorough"
-    reps_pair, reps_ident, reps_aspect = (80, 20, 40) if thorough else (8, 4, 6)
+    reps_pair, reps_ident, reps_aspect = (240, 40, 100) if thorough else (20, 6, 12)
     aspects = (1e2, 1e3, 1e4) if thorough else (1e2, 1e4)
     scenes = []
     for kA in TYPES:
@@ -846,13 +861,13 @@ def main():
     scenes = [scenes[i] for i in order]
 
     failures = []
-    stats = dict(evaluations=0, skipped=0, harness_incidents=[], construct_errors=[], max_evals={}, epa_capacity_asserts=0, scenes_run=set())
+    stats = dict(evaluations=0, skipped=0, harness_incidents=[], construct_errors=[], max_evals={}, epa_capacity_asserts=0, scenes_run=set(), samples=[])
     ok, wres, winc, wt = warm_up("eval_scene", warm_scenes())
     wsc = warm_scenes()
     collect([wsc], [(wres, winc, [])], failures, stats, contract_name)
     budget = (1050.0 if thorough else 135.0) - (time.time() - t0 - wt)     # the (cold-cache) JIT compile time of the warm-up is not charged
     batch_size = max(4, min(40, len(scenes) // (a.jobs * 6) + 1))
-    batches, out = guarded_map(scenes, "eval_scene", a.jobs, CALL_TIMEOUT if ok else 120.0, max(20.0, budget), batch_size)
+    batches, out = guarded_map(scenes, "eval_scene", a.jobs, CALL_TIMEOUT if ok else 90.0, max(20.0, budget), batch_size)
     collect(batches, out, failures, stats, contract_name)
 
     nontrivial = sum(1 for k, sc in {scene_key(s): s for s in scenes + wsc}.items() if k in stats["scenes_run"] and closeness(sc))
@@ -877,7 +892,7 @@ def main():
     for f in failures:
         key = f"{f['contract'].split('[')[0]}::{f['obligation']}"
         summary[key] = summary.get(key, 0) + 1
-    samples = [dict(spec_json(s), note="enumerated scene") for s in scenes[:4]]
+    samples = stats["samples"]
     C.emit(t0, stats["evaluations"], nontrivial,
            "scene counts as non-trivial when the colliders are close: centre distance <= 1.5*(largest feature of A + largest feature of B) "
            "(far-apart pairs exit after 1-2 support evaluations); distinct = distinct (types, poses, dimensions, same-object) scenes executed",
